@@ -42,10 +42,10 @@ def cs(s):
 
 
 # ------------------------------------------------------------------ scenarios
-def scenario(cid, lose, mode, phase, endpoints, closing=None, mid_ms=0, bound_ms=None, drop=0, ghost="", extra=0):
+def scenario(cid, lose, mode, phase, endpoints, closing=None, mid_ms=0, bound_ms=None, drop=0, ghost="", extra=0, delay_ms=None):
     n = sum(len(e["listeners"]) for e in endpoints)
     return {"id": cid, "lose": lose, "mode": mode, "phase": phase, "gossip_ms": GOSSIP_MS, "grace_ms": GRACE_MS,
-            "delay_ms": DELAY_MS, "endpoints": endpoints, "closing": closing or (["shutdown", "ctx"] * n)[:n],
+            "delay_ms": delay_ms or DELAY_MS, "endpoints": endpoints, "closing": closing or (["shutdown", "ctx"] * n)[:n],
             "bound_ms": bound_ms or BOUND_MS, "mid_ms": mid_ms, "drop_reconnects": drop, "ghost": ghost, "extra": extra}
 
 
@@ -78,6 +78,9 @@ def builtin_corpus():
         scenario("partial-1", 1, "mid", "connected", [{"id": "ea", "listeners": [1, 2]}], mid_ms=-1),
         # six nodes: the leaver tells four of its five peers, the fifth hears of it through gossip
         scenario("wide-graceful", 1, "graceful", "connected", [{"id": "ea", "listeners": [1, 0]}], extra=3),
+        # requests that take 3 s are in flight through the departing node: withdrawing its upstreams and announcing the
+        # departure must not wait for them
+        scenario("graceful-long-inflight", 0, "graceful", "inflight", [{"id": "ea", "listeners": [0, 1]}, {"id": "eb", "listeners": [0]}], delay_ms=3000),
     ]
 
 
@@ -173,6 +176,15 @@ def monitor(sc, o):
                 return {"sig": "listener-open", "why": "after Shutdown the %s port of %s still accepts connections" % (name, lost)}
         # the peers it notified (the live ones; at most 4 - here at most 2) stop routing to it at once
         notified = [p for p in L["live_before"] if p in L["live_after"]]
+        if sc["phase"] == "inflight" and sc["delay_ms"] >= 2500:
+            # "at once" does not mean "once the requests in flight through the node have finished": the withdrawal and the
+            # announcement come first, in-flight proxy requests are drained afterwards
+            for s_ in o["survivors"]:
+                t_left = [x["ms"] - o["loss_at_ms"] for x in s_["timeline"] if x["status"] == "left"]
+                if s_["node"] in notified and (not t_left or t_left[0] > 1500):
+                    return {"sig": "withdrawal-waits-for-drain",
+                            "why": "requests of %d ms were in flight through %s when its shutdown began; peer %s saw the departure only %s ms later (Shutdown took %d ms)"
+                                   % (sc["delay_ms"], lost, s_["node"], t_left[0] if t_left else "never within the run", o["loss_ms"])}
         if len(notified) > 4:
             # Leave stops after the 4th acknowledgement: any four of the live peers
             told = [s["node"] for s in o["survivors"] if s["instant"] == "left"]
